@@ -90,7 +90,7 @@ class Doc:
     """A finished document: .j is the DocJSON (for TLC), .xml() renders SCXML text."""
 
     def __init__(self, root, vars_=None, dm="rfsm-expression", binding="early", alphabet=None, auto_marks=True,
-                 guards=True, family="", name=""):
+                 guards=True, family="", name="", in_marks=False):
         self.root = root
         self.vars = dict(vars_ or {"x": 0})
         self.dm = dm
@@ -99,6 +99,7 @@ class Doc:
         self.guards = guards
         self.family = family
         self.name = name
+        self.in_marks = in_marks
         self.nodes = []
         self.trans = []
         self.blocks = []
@@ -133,6 +134,7 @@ class Doc:
     def _finish(self, alphabet):
         nodes = self.nodes
         am = self.auto_marks
+        inm = [mark("in", *[expr("in", v=n.id) for n in nodes if n.kind not in ("root", "history")])] if self.in_marks else []
         # transitions in document order: per state in document order: (initial elem), ordinary ones
         for n in nodes:
             lst = []
@@ -161,6 +163,7 @@ class Doc:
                 self.trans.append(tr)
         j = {"n": len(nodes), "name": [], "kind": [], "parent": [], "children": [], "hists": [], "htype": [],
              "init": [], "onentry": [], "onexit": [], "strans": [], "trans": [], "blocks": None, "vars": self.vars,
+             "sdata": [],
              "dm": self.dm, "binding": self.binding, "family": self.family}
         for n in nodes:
             j["name"].append(n.name)
@@ -170,15 +173,16 @@ class Doc:
             j["hists"].append([k.id for k in n.kids if k.kind == "history"])
             j["htype"].append(n.htype)
             j["init"].append(n.init_t.id if n.init_t else 0)
+            j["sdata"].append([{"n": k, "v": v} for (k, v) in (n.data if n.kind != "root" else [])])
             one = []
             if am and n.kind not in ("root", "history"):
-                one.append(self._block([mark("en:" + n.name)]))
+                one.append(self._block([mark("en:" + n.name)] + inm))
             for b in n.onentry:
                 one.append(self._block(b))
             j["onentry"].append(one)
             oxe = []
             if am and n.kind not in ("root", "history"):
-                oxe.append(self._block([mark("ex:" + n.name)]))
+                oxe.append(self._block([mark("ex:" + n.name)] + inm))
             for b in n.onexit:
                 oxe.append(self._block(b))
             j["onexit"].append(oxe)
@@ -188,7 +192,7 @@ class Doc:
             body = list(tr.body or [])
             renderable = not getattr(tr, "default", False) and not (tr.kind == "i" and tr.internal)
             if am and renderable:
-                body = [mark("%s:%d" % (tr.kind, tr.id))] + body
+                body = [mark("%s:%d" % (tr.kind, tr.id))] + inm + body
             tr.block = self._block(body) if body else 0
             j["trans"].append({"src": tr.src.id, "tgt": [x.id for x in tr.tgt], "ev": tr.ev, "cond": tr.cond,
                                "internal": bool(tr.internal), "block": tr.block, "kind": tr.kind})
@@ -237,6 +241,8 @@ class Doc:
             return e["n"]
         if k == "inc":
             return "%s + 1" % e["n"]
+        if k == "in":
+            return "In('%s')" % self.j["name"][e["v"] - 1]
         if k == "err":
             return "nope_undefined.q"
         raise ValueError(k)
@@ -952,6 +958,106 @@ def null_docs():
     p2.t("e2", p1)
     docs.append(Doc(ROOT(par), dm="null", auto_marks=False, guards=False, family="null", name="null-if-in",
                     alphabet=["e1", "e2"]))
+    return docs
+
+
+def rebuild(doc, **kw):
+    """the same tree as another Doc with different document options"""
+    args = dict(vars_=doc.vars, dm=doc.dm, binding=doc.binding, alphabet=doc.j["alphabet"], auto_marks=doc.auto_marks,
+                guards=doc.guards, family=doc.family, name=doc.name, in_marks=doc.in_marks)
+    args.update(kw)
+    return Doc(doc.root, **args)
+
+
+def invoke_in_docs():
+    """In() of a session must be answered from its own configuration also after it invoked a child whose
+    document has other (and partly equally named) states"""
+    docs = []
+    for dm in ("rfsm-expression", "ecmascript"):
+        s0, s1, shared = S("s0"), S("s1"), S("shared")
+        child = ('<invoke type="scxml" id="kid"><content><scxml xmlns="http://www.w3.org/2005/07/scxml" version="1.0" '
+                 'datamodel="%s" initial="c0"><state id="c0"><transition event="never" target="shared"/></state>'
+                 '<state id="shared"/><state id="s1"/></scxml></content></invoke>' % dm)
+        s0.extra_xml = [child]
+        s0.t("e1", s1)
+        s0.t("e2", None)
+        s1.t("e1", shared)
+        s1.t("e2", s0)
+        shared.t("e1", s0)
+        docs.append(Doc(ROOT(s0, s1, shared), dm=dm, family="invoke-in", name="invoke-in-" + dm[:4], in_marks=True,
+                        alphabet=["e1", "e2"]))
+        docs[-1].pre_sleep = 60
+    return docs
+
+
+def binding_docs():
+    """data binding (C09): state-level <datamodel>, read before / at / after first entry and on re-entry,
+    under early and late binding"""
+    docs = []
+    for binding, attr in (("early", False), ("late", False), ("early", True), ("late", True)):
+        a, b, b1, b2, c = S("a"), S("b"), S("b1"), S("b2"), S("c")
+        b.add(b1)
+        b.add(b2)
+        b.data = [("db", 5)]
+        b2.data = [("db2", 7)]
+        c.data = [("dc", 9)]
+        rd = [expr("var", "db"), expr("var", "db2"), expr("var", "dc"), expr("var", "x")]
+        a.onentry.append([mark("rd-a", *rd)])
+        b.onentry.append([mark("rd-b", *rd), assign("db", expr("inc", "db"))])
+        b2.onentry.append([mark("rd-b2", *rd), assign("db2", expr("inc", "db2"))])
+        c.onentry.append([mark("rd-c", *rd)])
+        a.t("e1", b, body=[mark("rd-t", *rd)])
+        a.t("e2", b2)
+        a.t("e3", c)
+        b1.t("e1", b2)
+        b.t("e2", a)
+        b.t("e3", c, body=[assign("dc", expr("const", v=1))])   # assigned before c is entered for the first time
+        c.t("e1", a)
+        c.t("e2", b)
+        r = ROOT(a, b, c)
+        if attr:
+            # with the initial attribute the <scxml> element itself is never "entered" by the algorithm
+            r.initial = ("attr", [a])
+        docs.append(Doc(r, binding=binding, family="binding", name="binding-%s%s" % (binding, "-attr" if attr else ""),
+                        alphabet=["e1", "e2", "e3"]))
+    return docs
+
+
+def xml_ins(text):
+    return ins("xml", tag=text)
+
+
+EV_MARK = "<script>mark('ev', _event.name, _event.type, _event.sendid, _event.origin, _event.origintype, _event.invokeid, _event.data)</script>"
+SYS_VARS = ["_sessionid", "_name", "_ioprocessors", "_event", "_event.name", "_event.type", "_event.sendid", "_event.origin",
+            "_event.origintype", "_event.invokeid", "_event.data"]
+
+
+def c09_event_docs(dm="rfsm-expression"):
+    """documents validated by TraceC09.tla only (their content is literal XML, opaque to Sem.tla)"""
+    docs = []
+    # 1. _event fields for external / internal / platform events, with params and content
+    a = S("a")
+    a.t("go", None, body=[xml_ins(EV_MARK), xml_ins('<raise event="r1"/>'),
+                          xml_ins('<send event="s1" target="#_internal" id="sid1"><param name="p1" expr="1"/><param name="p2" expr="\'two\'"/></send>'),
+                          xml_ins('<send event="s2" target="#_internal"><content expr="42"/></send>'),
+                          xml_ins('<assign location="nosuch" expr="1"/>')])
+    a.t("*", None, body=[xml_ins(EV_MARK)])
+    docs.append(Doc(ROOT(a), dm=dm, auto_marks=False, family="c09ev", name="event-fields-" + dm[:4], alphabet=["go"]))
+    # 2. attempts to modify system variables: onexit of s_i tries, the transition body reads back
+    forms = {"assign": '<assign location="%s" expr="\'zz\'"/>', "script": "<script>%s = 'zz'</script>"}
+    if dm == "rfsm-expression":
+        forms["init"] = "<script>%s ?= 'zz'</script>"
+    for var in SYS_VARS:
+        fl = dict(forms)
+        if "." not in var:
+            fl["foreach"] = '<foreach array="[1]" item="%s"></foreach>'
+        states = [S("s%d" % i) for i in range(len(fl) + 1)]
+        for i, (fname, tmpl) in enumerate(fl.items()):
+            st = states[i]
+            st.onexit.append([xml_ins("<script>mark('sysb:%s:%s', %s)</script>" % (var, fname, var)), xml_ins(tmpl % var)])
+            st.t("e1", states[i + 1], body=[xml_ins("<script>mark('sysa:%s:%s', %s)</script>" % (var, fname, var))])
+        docs.append(Doc(ROOT(*states), dm=dm, auto_marks=False, family="c09sys", name="sys-%s-%s" % (var, dm[:4]),
+                        alphabet=["e1"]))
     return docs
 
 
